@@ -35,6 +35,7 @@ def scenarios(tier):
     for j, c in faults:
         out.append(Scenario('acct', pat='obedient', hook=None, fault=[j, c], tier=tier))
     out.append(Scenario('acct', pat='obedient', hook=None, fault=[3, 1, 'RuntimeError'], tier=tier))
+    out.append(Scenario('acct', pat='slow', hook=None, fault=None, tier=tier, tick=0.3))
     return out
 
 
@@ -74,7 +75,7 @@ def run(scn, ch):
     tier = scn.tier
 
     def make_world(ch):
-        world = World(ch, [])
+        world = World(ch, [], check_delay=scn.p.get('tick', 1.0))
         opts = dict(numprocesses=2, graceful_timeout=G, max_retry=2)
         if scn.hook:
             name, outcome, k = scn.hook
